@@ -4,7 +4,6 @@
 const char* PROP_ID = "C20";
 void prop_init() { ys_set_arena_initial_size(65536); }
 
-extern "C" int __lsan_do_recoverable_leak_check() __attribute__((weak));
 
 static const int64_t INTS[] = {-1, 0, 1, 2, 7, 1LL << 40};
 static const double FLTS[] = {0.0, 1.5, -2.25, 1e10};
@@ -319,7 +318,7 @@ std::string run_case(Src& s, CaseInfo& ci)
   for (auto& sc : scanners) ys_scanner_free(sc.sc);
   size_t nsc = scanners.size();
   ys_rules_free(R);
-  if (failure.empty() && __lsan_do_recoverable_leak_check && __lsan_do_recoverable_leak_check())
+  if (failure.empty() && leak_check_now())
     failure = "memory leaked by this sequence of definitions (LeakSanitizer)";
 
   ci.desc = log;
